@@ -2,6 +2,7 @@ use crate::parser::model::{Comparable, Comparison, Literal, SingularQuery, Singu
 use crate::query::queryable::Queryable;
 use crate::query::state::{Data, Pointer, State};
 use crate::query::Query;
+use std::cmp::Ordering;
 
 impl Query for Comparison {
     fn process<'a, T: Queryable>(&self, state: State<'a, T>) -> State<'a, T> {
@@ -22,10 +23,8 @@ impl Query for Comparison {
 
 fn lt<'a, T: Queryable>(lhs: State<'a, T>, rhs: State<'a, T>) -> bool {
     let cmp = |lhs: &T, rhs: &T| {
-        let lhs_f64 = lhs.as_f64().or_else(|| lhs.as_i64().map(|v| v as f64));
-        let rhs_f64 = rhs.as_f64().or_else(|| rhs.as_i64().map(|v| v as f64));
-        if let (Some(lhs_num), Some(rhs_num)) = (lhs_f64, rhs_f64) {
-            lhs_num < rhs_num
+        if let Some(ord) = cmp_numbers(lhs, rhs) {
+            ord == Ordering::Less
         } else if let (Some(lhs), Some(rhs)) = (lhs.as_str(), rhs.as_str()) {
             lhs < rhs
         } else {
@@ -57,13 +56,35 @@ fn eq<'a, T: Queryable>(lhs_state: State<'a, T>, rhs_state: State<'a, T>) -> boo
 /// Compare two JSON values for equality.
 /// For numbers, it should implement interoperability for integer and float
 fn eq_json<T: Queryable>(lhs: &T, rhs: &T) -> bool {
-    let lhs_f64 = lhs.as_f64().or_else(|| lhs.as_i64().map(|v| v as f64));
-    let rhs_f64 = rhs.as_f64().or_else(|| rhs.as_i64().map(|v| v as f64));
+    match cmp_numbers(lhs, rhs) {
+        Some(ord) => ord == Ordering::Equal,
+        None => lhs == rhs,
+    }
+}
 
-    if let (Some(lhs_num), Some(rhs_num)) = (lhs_f64, rhs_f64) {
-        (lhs_num - rhs_num).abs() < f64::EPSILON
+/// Orders two JSON numbers by their mathematical value, `None` if either side is not a number.
+/// Integers are compared as integers and an integer is compared with a float without rounding
+/// it to `f64`, so values beyond 2^53 are not conflated.
+fn cmp_numbers<T: Queryable>(lhs: &T, rhs: &T) -> Option<Ordering> {
+    match (lhs.as_i64(), rhs.as_i64()) {
+        (Some(l), Some(r)) => Some(l.cmp(&r)),
+        (Some(l), None) => cmp_i64_f64(l, rhs.as_f64()?),
+        (None, Some(r)) => cmp_i64_f64(r, lhs.as_f64()?).map(Ordering::reverse),
+        (None, None) => lhs.as_f64()?.partial_cmp(&rhs.as_f64()?),
+    }
+}
+
+fn cmp_i64_f64(i: i64, f: f64) -> Option<Ordering> {
+    if f.is_nan() {
+        None
+    } else if f >= 9223372036854775808.0 {
+        Some(Ordering::Less)
+    } else if f < -9223372036854775808.0 {
+        Some(Ordering::Greater)
     } else {
-        lhs == rhs
+        // `f` is within the i64 range, so its integral part converts exactly
+        let int = f as i64;
+        Some(i.cmp(&int).then(0.0.partial_cmp(&(f - int as f64))?))
     }
 }
 fn eq_ref_to_array<T: Queryable>(r: Pointer<T>, rhs: &Vec<Pointer<T>>) -> bool {
